@@ -334,7 +334,24 @@ Fixpoint compile (a : ast) : option compiled :=
           end
       | _, _ => None
       end
-  | _ => None                       (* alias with a uid map, subquery marker: not in this model *)
+  | SubqueryMarker c =>
+      (* the query built so far becomes a subquery: every column in scope is selected in it (compile_ast
+         selects the ones that are needed later - a subset with the same meaning), the outer query starts
+         afresh over these columns and keeps the select list, the labels and the grouping state *)
+      match compile c with
+      | Some cc =>
+          let sc := c_scope cc in
+          let q := c_q cc in
+          Some {| c_from := FRows (fun d => map (fun u => map (fun x => (x, evd (c_defs cc) u x)) sc) (final_units d cc));
+                  c_cols := sc;
+                  c_q := {| q_select := q_select q; q_part := q_part q; q_group := []; q_where := []; q_having := [];
+                            q_order := []; q_limit := None; q_offset := 0; q_summ := false |};
+                  c_labels := c_labels cc;
+                  c_defs := map (fun x => (x, ECol x)) sc;
+                  c_scope := sc |}
+      | None => None
+      end
+  | _ => None                       (* alias with a uid map: not in this model *)
   end.
 
 
@@ -470,6 +487,7 @@ Fixpoint flat_ok (a : ast) : bool :=
          | None => false
          end
   | SliceHead c n k => flat_ok c && Z.leb 0 n && Z.leb 0 k
+  | SubqueryMarker c => flat_ok c
   | Join l r on JInner =>
       (* both operands: plain SELECT ... FROM ... WHERE (not summarized, ordered, limited or grouped, no
          window column), an element-wise condition, and the two operands share no column identity *)
@@ -528,32 +546,28 @@ Fixpoint flat_ok (a : ast) : bool :=
   | _ => false
   end.
 
-(* the select lists handed to compile_query while the unions of the pipeline are compiled, in call order:
-   both operands of every union, the right one after the reordering by name (a right operand whose column
-   names are not already in the left order is compiled a second time, wrapped in a Select) *)
+(* the compiled operands of the unions of a pipeline, in the order the unions are built (a right operand
+   whose column names are not already in the left order is compiled a second time, wrapped in a Select: its
+   inner unions are built twice) *)
 Fixpoint names_eqb2 (a b : list string) : bool :=
   match a, b with
   | [], [] => true
   | x :: a', y :: b' => String.eqb x y && names_eqb2 a' b'
   | _, _ => false
   end.
-Fixpoint cq_log (a : ast) : list (list uid) :=
+Fixpoint union_info (a : ast) : list (compiled * compiled) :=
   match a with
   | Source _ _ => []
   | Select c _ | Rename c _ | Mutate c _ | Filter c _ | Arrange c _ | SliceHead c _ _
-  | GroupBy c _ _ | Ungroup c | Summarize c _ | Alias c _ | SubqueryMarker c => cq_log c
-  | Join l r _ _ => cq_log l ++ cq_log r
+  | GroupBy c _ _ | Ungroup c | Summarize c _ | Alias c _ | SubqueryMarker c => union_info c
+  | Join l r _ _ => union_info l ++ union_info r
   | Union l r _ =>
-      cq_log l ++ cq_log r ++
+      union_info l ++ union_info r ++
       match compile l, compile r with
       | Some cl, Some cr =>
           let lnames := map (label (c_labels cl)) (q_select (c_q cl)) in
           let rnames := map (label (c_labels cr)) (q_select (c_q cr)) in
-          (if names_eqb2 lnames rnames then [] else cq_log r) ++
-          match union_right_select cl cr with
-          | Some rsel => [q_select (c_q cl); rsel]
-          | None => []
-          end
+          (if names_eqb2 lnames rnames then [] else union_info r) ++ [(cl, cr)]
       | _, _ => []
       end
   end.
